@@ -38,6 +38,13 @@ CLAIMED = {
             "actions are valid indices. Model tied to the code by bit-exact comparison of Q, counters, actions, rewards after every step.",
             "Trusted: Lean kernel; IEEE + - * / equal in Lean Float and CPython; the PRNG is a tape (recorded real stream + scripted boundary values).",
             "DESIGN.md §4 C19"),
+    "C13": ("Lean 4 proof (loop = digit-reflection sum by induction; cursor additivity over any batch-size list; prime table by kernel evaluation; R-sequence step law) + bit-exact differential run of halton(), the sieve and both sampler cursors",
+            "Proved in Lean: for every base >= 2 and index the halton() loop returns sum d_j b^-(j+1) over the base-b digits (in [0,1)); the k-th "
+            "point of a batch at cursor s is point s+k and any list of batch sizes concatenates to one batch of the total (two of n = one of 2n); "
+            "the sieve yields exactly the primes <= 173 in order for d <= 40; R-sequence points advance by alpha mod 1. Tied to halton.py / "
+            "r_sequence.py bit-for-bit (Float instance) and to exact rationals within 2^-50; phi/alpha are tolerance-checked numerics.",
+            "Trusted: Lean kernel; IEEE elementwise ops equal in Lean Float and numpy; PRNG as a recorded tape; pow() evaluation of phi not proved.",
+            "DESIGN.md §4 C13"),
 }
 NOT_YET = {}
 
